@@ -10,8 +10,11 @@ scratch = pathlib.Path("/var/tmp/verif_seed") / ("%s_%d" % (name, os.getpid()))
 shutil.rmtree(scratch, ignore_errors=True); scratch.parent.mkdir(exist_ok=True)
 subprocess.run(["rsync", "-a", "--exclude", ".git", "--exclude", "__pycache__", "--exclude", "_seed", "/repo/", str(scratch) + "/"], check=True)
 env = dict(os.environ, TQDM_DISABLE="1", OMP_NUM_THREADS="1", PYTHONPATH=str(scratch))
+(scratch / "_seed" / "x").mkdir(parents=True, exist_ok=True)
+shutil.copy(src / "demo.py", scratch / "_seed" / "x" / "demo.py")
 def demo():
-    r = subprocess.run(["/venv/bin/python", str(src / "demo.py")], cwd=scratch, env=env, capture_output=True, text=True, timeout=1800)
+    # the demo is run from a copy inside the scratch checkout (<copy>/_seed/x/demo.py): some demos locate the package relative to their own path
+    r = subprocess.run(["/venv/bin/python", str(scratch / "_seed" / "x" / "demo.py")], cwd=scratch, env=env, capture_output=True, text=True, timeout=1800)
     return r.returncode, (r.stdout + r.stderr)[-600:]
 rc0, out0 = demo()
 ap = subprocess.run(["patch", "-p1", "-s", "-d", str(scratch), "-i", str((src / "patch.diff").resolve())], capture_output=True, text=True)
